@@ -230,6 +230,16 @@ def cnf(t: ast.AST, pol: bool) -> List[List[Atom]]:
             return [c for p in parts for c in p]
         if all(len(p) == 1 for p in parts):
             return [[a for p in parts for a in p[0]]]
+        # a disjunction of conjunctions is distributed: `A or (B and C)` = `(A or B) and (A or C)` (merged conditions
+        # such as `not (days is not None and (type(u) is float or type(u) is int))`); bounded, else kept as one atom
+        n = 1
+        for p in parts:
+            n *= len(p)
+        if 0 < n <= 16:
+            out = [[]]
+            for p in parts:
+                out = [acc + cl for acc in out for cl in p]
+            return out
         return [[(t, pol)]]
     return [[(t, pol)]]
 
@@ -1134,4 +1144,153 @@ class SearchSim:
             if s.kind == 'return':
                 return s.value
             raise
+        return None
+
+
+# ---------------------------------------------------------------------------------------------------- generator loops
+def _own_nodes(fn):
+    """nodes of a function body, nested defs / lambdas / classes not entered"""
+    stack = list(fn.body)
+    while stack:
+        n = stack.pop()
+        yield n
+        for c in ast.iter_child_nodes(n):
+            if not isinstance(c, (ast.FunctionDef, ast.AsyncFunctionDef, ast.Lambda, ast.ClassDef)):
+                stack.append(c)
+
+
+def _simple_stream_generator(g: ast.FunctionDef):
+    """the `for` of a generator function of the shape `[docstring]; for V in IT: <statements with `yield E`>`: every
+    yield is an expression statement inside that one loop, no other loop / try / with / return / break, no
+    `yield from`.  None when g is anything else."""
+    a = g.args
+    if a.vararg or a.kwarg or a.kwonlyargs or a.defaults or g.decorator_list and any(
+            getattr(d, 'id', '') != 'staticmethod' for d in g.decorator_list):
+        return None
+    body = [st for st in g.body if not (isinstance(st, ast.Expr) and isinstance(st.value, ast.Constant))]
+    if len(body) != 1 or not isinstance(body[0], ast.For) or body[0].orelse:
+        return None
+    loop = body[0]
+    ys = [n for n in _own_nodes(g) if isinstance(n, (ast.Yield, ast.YieldFrom, ast.Await))]
+    if not ys or any(not isinstance(n, ast.Yield) or n.value is None for n in ys):
+        return None
+    if any(isinstance(n, (ast.For, ast.While, ast.Try, ast.With, ast.Return, ast.Break, ast.Global, ast.Nonlocal)) and n is not loop
+           for n in _own_nodes(g)):
+        return None
+    # yields only as whole statements (the consumer's body takes the place of the statement)
+    whole = [st.value for st in _own_nodes(g) if isinstance(st, ast.Expr) and isinstance(st.value, ast.Yield)]
+    if len(whole) != len(ys):
+        return None
+    # private names would be mangled differently where the loop is inlined
+    if any(isinstance(n, ast.Attribute) and n.attr.startswith('__') and not n.attr.endswith('__') for n in _own_nodes(g)):
+        return None
+    return loop
+
+
+def inline_stream_generators(text: str) -> Optional[str]:
+    """source text of a module in which every `for T in G(args): BODY` over a simple stream generator G of the same
+    module (module function, or method of the same class called as self.G / K.G) is rewritten to G's own loop with
+    `T = E; BODY` in place of every `yield E` (G's locals renamed, parameters replaced by the argument expressions).
+    Valid because BODY runs exactly once per yielded value at the place of the yield; BODY must not `break` /
+    `continue` the consumer loop (a return / raise leaves both spellings alike: G has no try / with).  None when nothing was rewritten."""
+    try:
+        tree = ast.parse(text)
+    except SyntaxError:
+        return None
+    mod_funcs = {st.name: st for st in tree.body if isinstance(st, ast.FunctionDef)}
+    count = [0]
+
+    def loop_level(stmts):
+        """statements that belong to the consumer loop itself (bodies of nested loops / defs not entered)"""
+        for st in stmts:
+            yield st
+            if isinstance(st, (ast.For, ast.While, ast.FunctionDef, ast.AsyncFunctionDef, ast.ClassDef)):
+                continue
+            for fld in ('body', 'orelse', 'finalbody'):
+                yield from loop_level(getattr(st, fld, None) or [])
+            for h in getattr(st, 'handlers', None) or []:
+                yield from loop_level(h.body)
+
+    def rewrite(owner_cls, fn):
+        class T(ast.NodeTransformer):
+            def visit_FunctionDef(self, n):
+                return n if n is not fn else self.generic_visit(n)
+
+            def visit_Lambda(self, n):
+                return n
+
+            def visit_For(self, n):
+                self.generic_visit(n)
+                c = n.iter
+                if n.orelse or not isinstance(c, ast.Call) or c.keywords or any(isinstance(x, ast.Starred) for x in c.args):
+                    return n
+                g, drop = None, 0
+                if isinstance(c.func, ast.Name):
+                    g = mod_funcs.get(c.func.id)
+                elif isinstance(c.func, ast.Attribute) and isinstance(c.func.value, ast.Name) and owner_cls is not None and \
+                        c.func.value.id in ('self', 'cls', owner_cls.name):
+                    g = next((st for st in owner_cls.body if isinstance(st, ast.FunctionDef) and st.name == c.func.attr), None)
+                    if g is not None and not any(getattr(d, 'id', '') == 'staticmethod' for d in g.decorator_list):
+                        drop = 1
+                if g is None or g is fn:
+                    return n
+                gl = _simple_stream_generator(g)
+                params = [x.arg for x in g.args.posonlyargs + g.args.args]
+                if gl is None or len(params) - drop != len(c.args):
+                    return n
+                if any(isinstance(st, (ast.Break, ast.Continue)) for st in loop_level(n.body)):
+                    return n
+                count[0] += 1
+                tag = f"__g{count[0]}"
+                stored = {x.id for x in ast.walk(g) if isinstance(x, ast.Name) and isinstance(x.ctx, ast.Store)}
+                sub = {}
+                pre = []
+                args = ([c.func.value] if drop else []) + list(c.args)
+                for p, a_ in zip(params, args):
+                    if p not in stored and isinstance(a_, (ast.Name, ast.Attribute, ast.Constant)) and \
+                            not any(isinstance(x, ast.Call) for x in ast.walk(a_)):
+                        sub[p] = a_
+                    else:
+                        pre.append(ast.Assign(targets=[ast.Name(id=p + tag, ctx=ast.Store())], value=a_))
+                        sub[p] = ast.Name(id=p + tag, ctx=ast.Load())
+                for x in stored:
+                    if x not in sub:
+                        sub[x] = ast.Name(id=x + tag, ctx=ast.Load())
+
+                class R(ast.NodeTransformer):
+                    def visit_Name(self, x):
+                        if x.id in sub:
+                            r = copy.deepcopy(sub[x.id])
+                            if isinstance(x.ctx, ast.Store):
+                                if not isinstance(r, ast.Name):
+                                    return x
+                                r.ctx = ast.Store()
+                            return r
+                        return x
+
+                    def visit_Expr(self, st):
+                        if isinstance(st.value, ast.Yield):
+                            val = self.visit(copy.deepcopy(st.value.value))
+                            return [ast.Assign(targets=[copy.deepcopy(n.target)], value=val)] + copy.deepcopy(n.body)
+                        return self.generic_visit(st)
+                new = R().visit(copy.deepcopy(gl))
+                out = pre + [new]
+                for st in out:
+                    ast.copy_location(st, n)
+                    ast.fix_missing_locations(st)
+                return out
+        T().visit(fn)
+
+    for st in tree.body:
+        if isinstance(st, ast.FunctionDef):
+            rewrite(None, st)
+        elif isinstance(st, ast.ClassDef):
+            for m in st.body:
+                if isinstance(m, ast.FunctionDef):
+                    rewrite(st, m)
+    if not count[0]:
+        return None
+    try:
+        return ast.unparse(ast.fix_missing_locations(tree))
+    except Exception:
         return None
